@@ -1647,6 +1647,20 @@ class StateEngine(object):
                             catch_matched = True
 
                             """
+                            A failed Map or Parallel state fails as a whole, so
+                            when its error is caught cancel the Tasks and Waits
+                            of the other Branches/Iterations and release their
+                            events, as the retry path does. This is only done
+                            for a Map or Parallel state that is not itself in
+                            a Branch, as check_pending_results tidies up all of
+                            the branch results of the execution.
+                            """
+                            if ((state_type == "Map" or state_type == "Parallel")
+                                and "Branch" not in context["State"]
+                                and execution_arn in self.branch_metadata):
+                                self.check_pending_results(execution_arn)
+
+                            """
                             If we've caught an error and the current event that
                             caused the error is an event in a Map/Paralell
                             Branch or Iterator we mark the Branch/Iterator
